@@ -679,6 +679,12 @@ def verify(prog, fn, bb, sink, spec, _facts_override=None):
         for g in fs:
             cs = g.calls_to(spec["at_call"])
             if not cs:
+                # the call may have moved into a local helper of the sibling
+                g2 = prog.inlined(g, 2, spec["at_call"])
+                if g2 is not g and g2.calls_to(spec["at_call"]):
+                    g = g2
+                    cs = g.calls_to(spec["at_call"])
+            if not cs:
                 return False, "sibling %s has no call matching /%s/" % (g.key, spec["at_call"])
             for c in cs:
                 ok, how = verify(prog, g, c.bb, None, spec["guard"])
